@@ -155,7 +155,7 @@ func newCuEnv(dir string, set []string) (*cuEnv, error) {
 		}
 		b2 := boss
 		for _, e := range set {
-			if err := mk(e, []string{"r", "q", "p"}, &b2, nil); err != nil {
+			if err := mk(e, []string{"r", "q", "p", "w"}, &b2, nil); err != nil {
 				return err
 			}
 		}
@@ -164,7 +164,11 @@ func newCuEnv(dir string, set []string) (*cuEnv, error) {
 		}
 		// a second, never empty back-reference set (decoy's reports): a runtime set symbol is re-used from row to row
 		d2 := decoy
-		if err := mk("zz-helper", nil, &d2, nil); err != nil {
+		if err := mk("zz-helper", []string{"r"}, &d2, nil); err != nil {
+			return err
+		}
+		// has w but not r (r is the more common value: two entities outside the set hold it, one holds w)
+		if err := mk("Zw", []string{"w"}, nil, nil); err != nil {
 			return err
 		}
 		// one person holding the set as roles, link set and ref-counted link set
@@ -177,6 +181,10 @@ func newCuEnv(dir string, set []string) (*cuEnv, error) {
 					return err
 				}
 			}
+		}
+		// looking a value up that nobody holds -- in this write transaction -- is a read: the index has no key for it afterwards
+		if c := env.S.People.IdxRoles.OpenValueCursor(tx, []byte("zzz-nobody-has-this"), true); c != nil && c.IsValid() {
+			return fmt.Errorf("a value cursor over an absent value is valid")
 		}
 		return nil
 	})
@@ -245,11 +253,17 @@ var cursorKinds = []cursorKind{
 	}},
 	{name: "index.OpenKeyCursor", needsNoE: true, open: func(e *cuEnv, tx *bbolt.Tx, fwd bool) ast.SetCursor {
 		// keys: the roles of P (= the set) plus q and r, which sort after every element: filter them out
-		return ast.NewFilteredCursor(e.S.People.IdxRoles.OpenKeyCursor(tx, fwd), func(v []byte) bool { return string(v) != "q" && string(v) != "r" && string(v) != "p" })
+		return ast.NewFilteredCursor(e.S.People.IdxRoles.OpenKeyCursor(tx, fwd), func(v []byte) bool {
+			return string(v) != "q" && string(v) != "r" && string(v) != "p" && string(v) != "w"
+		})
 	}},
 	{name: "IteratorMatchingAllOf", needsNoE: true, open: func(e *cuEnv, tx *bbolt.Tx, fwd bool) ast.SetCursor {
 		// (three values, given in no particular order)
 		return e.S.People.IteratorMatchingAllOf(e.S.People.IdxRoles, []string{"r", "q", "p"})(tx, fwd)
+	}},
+	{name: "IteratorMatchingAllOf-commonFirst", needsNoE: true, open: func(e *cuEnv, tx *bbolt.Tx, fwd bool) ast.SetCursor {
+		// (the first value is the more common one; an entity outside the set holds only the second)
+		return e.S.People.IteratorMatchingAllOf(e.S.People.IdxRoles, []string{"r", "w"})(tx, fwd)
 	}},
 	{name: "IteratorMatchingAnyOf", needsNoE: true, open: func(e *cuEnv, tx *bbolt.Tx, fwd bool) ast.SetCursor {
 		return e.S.People.IteratorMatchingAnyOf(e.S.People.IdxRoles, []string{"q", "zz"})(tx, fwd)
